@@ -284,7 +284,10 @@ func FolderUpload(srv *fixture.Server, addr string, ref []byte, items []UpItem) 
 		if it.IsFolder {
 			continue
 		}
-		name := it.Path[len(it.Path)-1]
+		name := []byte("unnamed")
+		if len(it.Path) > 0 {
+			name = it.Path[len(it.Path)-1]
+		}
 		switch it.Action {
 		case 3:
 			continue
